@@ -37,6 +37,36 @@ def run_job(job):
     return out
 
 
+def run_sweep(job):
+    """Line-boundary interrupt injection: one counting run, then one run per chosen boundary
+    (all of them, or a seeded sample), each with a KeyboardInterrupt raised at that boundary of the
+    calling thread inside labtech.  With job["double"], a second interrupt follows at a later boundary."""
+    import random
+    base = dict(job)
+    base['count_lines'] = True
+    base.pop('sweep', None)
+    first = run_job(base)
+    total = first['meta']['lines']
+    rnd = random.Random(job.get('seed', 0))
+    ks = list(range(1, total + 1))
+    want = job['sweep']
+    if want != 'all' and len(ks) > want:
+        ks = sorted(rnd.sample(ks, want))
+    out = []
+    for k in ks:
+        j = dict(base)
+        j['count_lines'] = False
+        j['id'] = f'{job["id"]}-L{k}'
+        j['int_lines'] = [k]
+        if job.get('double'):
+            j['int_lines'] = [k, k + rnd.randrange(1, 60)]
+            j['id'] += f'+{j["int_lines"][1] - k}'
+        r = run_job(j)
+        r['job'] = j
+        out.append(r)
+    return out
+
+
 def _beh(b):
     if not b:
         return None
@@ -48,10 +78,11 @@ def main():
     with open(sys.argv[2], 'w') as out:
         for job in jobs:
             try:
-                res = run_job(job)
+                res = run_sweep(job) if job.get('sweep') else [run_job(job)]
             except BaseException as ex:   # noqa
-                res = {'tid': job['id'], 'error': ''.join(traceback.format_exception(type(ex), ex, ex.__traceback__))[-3000:]}
-            out.write(json.dumps(res, separators=(',', ':')) + '\n')
+                res = [{'tid': job['id'], 'error': ''.join(traceback.format_exception(type(ex), ex, ex.__traceback__))[-3000:]}]
+            for r in res:
+                out.write(json.dumps(r, separators=(',', ':')) + '\n')
             out.flush()
 
 
